@@ -5,8 +5,7 @@
    row l m = l*l + iota m = position of (l, m). *)
 From Coq Require Import Reals ZArith List Bool Arith.
 From Coquelicot Require Import Coquelicot.
-From P Require Import C08_model_base C08_gen C08_model_spec C08_model C08_proofs_loop C08_proofs_order C08_proofs_azimuth
-  C08_proofs_small C08_proofs_polar C08_proofs_sph.
+From P Require Import C08_model_base C08_gen C08_model_spec C08_model C08_proofs_loop C08_proofs_order C08_proofs_azimuth.
 Import ListNotations.
 Open Scope R_scope.
 
